@@ -20,6 +20,7 @@ Added after the seeding rounds (DESIGN.md 6.6-6.8):
 import ast
 import numpy as np
 from sa import poly as P
+from sa.desugar import desugared
 from sa.model import stmt_text
 from sa.symeval import Interp, sym_vec, sym_mat, to_obj, unit_syms, ClassRef
 from sa.lib import eq, all_of, QUAT, ORI, DCM, quat_obj, E_ref
@@ -351,6 +352,7 @@ def rowwise_rule(chk, prog):
             f = c.methods.get("_compute_all")
             if f is None:
                 continue
+            f = desugared(f)       # direct iteration over the sample arrays in index form
             scopes = []
             for node in ast.walk(f.node):
                 if isinstance(node, ast.For) and isinstance(node.target, ast.Name):
